@@ -3934,3 +3934,4 @@ impl fmt::Debug for PublishConfig {
         }
     }
 }
+#[cfg(libp2p_verif)] #[doc(hidden)] #[path = "verif_gs_node.rs"] pub mod verif_gs_node;
